@@ -10,13 +10,14 @@ import time
 VERIF = os.path.dirname(os.path.dirname(os.path.abspath(__file__)))
 REPO = os.environ.get("VERIF_REPO", "/repo")
 SPEC = os.path.join(VERIF, "spec")
-OUT = os.path.join(VERIF, "out")
-EVID = os.path.join(VERIF, "evidence")
+OUT = os.environ.get("VERIF_OUT", os.path.join(VERIF, "out"))      # scratch (self-test overrides it)
+EVID = os.environ.get("VERIF_EVID", os.path.join(VERIF, "evidence"))
+CACHE = os.path.join(VERIF, "out", "cache")                          # specification-only artefacts
 REPLAYS = os.path.join(OUT, "replays")
 PY = "/venv/bin/python"
 NCPU = os.cpu_count() or 4
 
-for _d in (OUT, EVID, REPLAYS, os.path.join(OUT, "tlc")):
+for _d in (OUT, EVID, REPLAYS, os.path.join(OUT, "tlc"), CACHE):
     os.makedirs(_d, exist_ok=True)
 
 
@@ -402,8 +403,7 @@ def tlc_universe(module, uid, init, next_, extra_env=None, tag=None, timeout=180
             with open(os.path.join(SPEC, f), "rb") as fh:
                 h.update(f.encode() + fh.read())
     key = hashlib.sha256((h.hexdigest() + module + uid + json.dumps(extra_env or {}, sort_keys=True)).encode()).hexdigest()[:20]
-    cdir = os.path.join(OUT, "cache")
-    os.makedirs(cdir, exist_ok=True)
+    cdir = CACHE
     cpath = os.path.join(cdir, f"universe-{module}-{uid}-{key}.json")
     if os.path.exists(cpath):
         with open(cpath) as fh:
